@@ -12,7 +12,7 @@
 (*               function also gives the reciprocal factor.                      *)
 (* Variant # "faithful" changes the transcription (vacuity guards).             *)
 EXTENDS MatPoly
-CONSTANT Variant
+CONSTANT Variant, Tier
 VARIABLE x
 
 B01 == {0, 1}
@@ -29,24 +29,44 @@ IntTable(c11, c20, c21, c22, c30, c31, c32, c33) ==
   << <<q(0), q(0), q(0), q(0)>>, <<q(0), q(c11), q(0), q(0)>>,
      <<q(c20), q(c21), q(c22), q(0)>>, <<q(c30), q(c31), q(c32), q(c33)>> >>
 
-(* Seeds are the initial states; each seed expands to its share of the instances  *)
-(* in one step, so that the 16 TLC workers share the work.                        *)
+(* Domains.  The identities are polynomial in the matrix entries: of degree <= 3  *)
+(* in each entry of A1 and affine in A2 and in A3 (each A_k carries weight k and   *)
+(* the total weight is <= 3).  Hence A2, A3 in {0} + unit matrices is complete for  *)
+(* A2, A3, and a 4-point grid -1..2 per entry of A1 (thorough) is complete for A1:  *)
+(* the thorough run proves the law for all 2x2 rational matrices.  The same weight  *)
+(* argument makes the decoupling law affine in (c2x, c3x) jointly and cubic in c11. *)
+G4 == -1..2
+M2wide == {<< <<a, b>>, <<c, d>> >> : a \in G4, b \in G4, c \in G4, d \in G4}
+Z2 == << <<0, 0>>, <<0, 0>> >>
+Units2 == {Z2, << <<1, 0>>, <<0, 0>> >>, << <<0, 1>>, <<0, 0>> >>, << <<0, 0>>, <<1, 0>> >>, << <<0, 0>>, <<0, 1>> >>}
+OmeA1 == IF Tier = "quick" THEN M2 ELSE M2wide
+Vec7 == IF Tier = "quick"
+        THEN {[k \in 1..7 |-> 0]} \cup {[k \in 1..7 |-> IF k = m THEN 1 ELSE 0] : m \in 1..7}
+        ELSE [1..7 -> B01]
 MassC11 == IF Variant = "mass_c11" THEN {1} ELSE {0}
 Seeds ==
-  [kind : {"seed"}, of : {"ome"}, A1 : M2, c : {0}, e : {0}] \cup
-  [kind : {"seed"}, of : {"ome3"}, A1 : M3, c : {0}, e : {0}] \cup
-  [kind : {"seed"}, of : {"dec"}, A1 : {<<>>}, c : -2..2, e : B01] \cup
-  [kind : {"seed"}, of : {"mass"}, A1 : {<<>>}, c : MassC11, e : -1..1]
-Init == x \in Seeds
+  [kind : {"seed"}, of : {"ome"}, A1 : OmeA1, c : {0}] \cup
+  (IF Tier = "quick" THEN {} ELSE [kind : {"seed"}, of : {"ome01"}, A1 : M2, c : {0}]) \cup
+  [kind : {"seed"}, of : {"ome3"}, A1 : M3, c : {0}] \cup
+  [kind : {"seed"}, of : {"dec"}, A1 : {<<>>}, c : -2..2] \cup
+  [kind : {"seed"}, of : {"mass"}, A1 : {<<>>}, c : MassC11]
+(* a variant run explores only the kind of instance the variant concerns          *)
+KindsOf == CASE Variant \in {"commuted", "cube_sign"} -> {"ome", "ome01", "ome3"}
+             [] Variant = "reciprocal22" -> {"dec"}
+             [] Variant = "mass_c11" -> {"mass"}
+             [] OTHER -> {"ome", "ome01", "ome3", "dec", "mass"}
+Init == x \in {s \in Seeds : s.of \in KindsOf}
 Next ==
   /\ x.kind = "seed"
   /\ \/ /\ x.of = "ome"
+         /\ x' \in [kind : {"ome"}, A1 : {x.A1}, A2 : Units2, A3 : Units2]
+      \/ /\ x.of = "ome01"
          /\ x' \in [kind : {"ome"}, A1 : {x.A1}, A2 : M2, A3 : M2]
       \/ /\ x.of = "ome3"
-         /\ x' \in [kind : {"ome3"}, A1 : {x.A1}, A2 : M3, A3 : M3b]
+         /\ x' \in [kind : {"ome3"}, A1 : {x.A1}, A2 : (IF Tier = "quick" THEN M3b ELSE M3), A3 : (IF Tier = "quick" THEN {E3(3, 1), L3} ELSE M3b)]
       \/ /\ x.of \in {"dec", "mass"}
-         /\ \E c21 \in B01, c22 \in B01, c30 \in B01, c31 \in B01, c32 \in B01, c33 \in B01 :
-               x' = [kind |-> x.of, T |-> IntTable(x.c, x.e, c21, c22, c30, c31, c32, c33)]
+         /\ \E v \in Vec7 :
+               x' = [kind |-> x.of, T |-> IntTable(x.c, v[1], v[2], v[3], v[4], v[5], v[6], v[7])]
 
 (* build_ome variants *)
 Expanded(A, n) ==
